@@ -90,14 +90,20 @@ package api
 //@   ensures result.mode == c.mode && result.callerAddress == c.callerAddress && result.txSigner == c.txSigner && result.gasAccountant == c.gasAccountant
 //@   note the overlay tree is a new object: writes through it are not writes through the parent's tree
 
+//@ ghost var GOverlayCommits int
+
 //@ func Context.Commit
-//@   trusted
+//@   props C03 C08
 //@   requires c != nil
-//@   modifies GTreeW, GCommits, kvState(), c.events, c.eventsProvable, c.parent.events, c.parent.eventsProvable
-//@   ensures forall t mkvs.KeyValueTree :: t != old(TreeOf(c.parent)) ==> GTreeW[t] == old(GTreeW[t])
+//@   trustframe
+//@   modifies GTreeW, GCommits, GOverlayCommits, kvState(), c.events, c.eventsProvable, c.parent.events, c.parent.eventsProvable
+//@   ensures-trusted forall t mkvs.KeyValueTree :: t != old(TreeOf(c.parent)) ==> GTreeW[t] == old(GTreeW[t])
 //@   ensures result == old(c.parent)
-//@   ensures GCommits == old(GCommits) + 1
+//@   ensures-trusted GCommits == old(GCommits) + 1
+//@   ensures old(InTx(c)) ==> GOverlayCommits == old(GOverlayCommits) + 1
+//@   ensures !old(InTx(c)) ==> GOverlayCommits == old(GOverlayCommits)
 //@   note flushes the overlay into the parent's tree (the only way a transaction context's writes reach it); panics if the overlay commit fails
+//@   note partially verified (was trusted): committing a transaction context commits its overlay tree exactly once, successfully, in EVERY mode - also in simulation, where sub-calls and per-message transactions rely on reading their own committed writes back (seed C03_h skipped the overlay commit in simulation mode); the returned context is the parent. Assumed: the ghost write attribution (which tree the overlay commit writes) and the frame
 
 //@ func Context.Close
 //@   trusted
